@@ -31,7 +31,7 @@ class Prop(BaseProp):
             "explicitly passed default_thresh through bivariate, multivariate, matrix, profile, order, directionality and "
             "filter entry points, and default_thresh vs the exact RMS of the pooled ISI lengths. distinct = "
             "(interleaving word, MRTS regime pair)")
-    budget = {"quick": 500, "thorough": 30000}
+    budget = {"quick": 500, "thorough": 22000}
     must_see = ["mrts_pair_distinct", "noop_checked", "auto_bi", "auto_multi", "auto_matrix", "auto_filter", "auto_order",
                 "auto_directionality", "thresh_one_spike_train", "thresh_empty_train", "thresh_edge_spike", "N>=3",
                 "monotone_strict_decrease_seen", "sync_gain_seen"]
